@@ -86,6 +86,8 @@ HSolver::HSolver()
     WarnMessage = &PrintWarningMsg;
 
     bMultiplyDefinedLabels = false;
+    // steady state unless the problem file carries a [dT] key
+    dT = 0;
 }
 
 HSolver::~HSolver()
